@@ -315,7 +315,7 @@ def coord(c, inc):
     return (c.period_start, c.period_end, c.evaluation_date, c.prev_evaluation_date if inc else None)
 
 
-def summarize_oracle(cells, prem, status, res, notes=None):
+def summarize_oracle(cells, prem, status, res, notes=None, known=None):
     """Property C09 judged directly on the implementation's result.  `cells` = triangle.cells.
     Returns a list of failure strings (empty = fine).  Only what the property forbids is flagged."""
     fails = []
@@ -393,9 +393,16 @@ def summarize_oracle(cells, prem, status, res, notes=None):
                 if canon_value(got) in held:
                     continue
                 if got is None and g[0].values.get(k) is None:
-                    if notes is not None:
-                        notes.append("summarize_premium=False: first cell of the group lacks the field -> None")
-                    continue
+                    if held:
+                        # known finding S1: the first cell of the group lacks the field, so the result is None
+                        # although another cell of the group holds it
+                        msg = (f"summarize_premium=False: {k} = None because the first cell of the group lacks it, "
+                               f"although other cells hold {[v for v in vals if v is not None][:2]!r}")
+                        if known is not None:
+                            known.append(msg)
+                        else:
+                            fails.append(msg)
+                    continue                  # no cell holds a value: None is every cell's value
                 fails.append(f"summarize_premium=False: {k} = {got!r} is not the value of an existing cell {vals!r}")
             elif k in RATIO:
                 w, tr = RATIO[k]
